@@ -2,6 +2,7 @@
 //! Everything is behind `cfg(kani)`; the crate is empty otherwise.
 #![allow(dead_code, unused_imports, clippy::all)]
 #![cfg_attr(not(feature = "fs_std"), no_std)]
+#![cfg_attr(kani, feature(allocator_api))]
 
 #[macro_use]
 extern crate alloc;
@@ -49,3 +50,5 @@ mod c03_update_path;
 mod c05_ratchet_request;
 #[cfg(all(kani, feature = "fs_std"))]
 mod c16_external;
+#[cfg(all(kani, feature = "fs_core"))]
+mod c05_ooo;
